@@ -216,11 +216,20 @@ func runForeign(c jobCase) {
 					switch {
 					case f == "dict" || f == "dict-rle" || f == "dict-plain" || len(f) > 6 && f[:6] == "codec-":
 						ch.Feature = f
+					case fs.Unsup.Page < 0:
+						// the feature sits on an extra, value-less page appended after the last page of the chunk (below)
 					case fs.Unsup.Page == pi || fs.Unsup.Page >= len(counts) && pi == len(counts)-1:
 						p.Feature = f
 					}
 				}
 				ch.Pages = append(ch.Pages, p)
+			}
+			if fs.Unsup != nil && fs.Unsup.RG == gi && fs.Unsup.Col == ci && fs.Unsup.Page < 0 {
+				// a trailing page without values that uses the unsupported feature: every value of the chunk has been
+				// delivered before the reader gets there
+				tp := pq.PageSpec{Feature: fs.Unsup.Feature, Reps: []uint8{}, Defs: []uint8{}}
+				tp.RepSegs, tp.DefSegs = []pq.Seg{}, []pq.Seg{}
+				ch.Pages = append(ch.Pages, tp)
 			}
 			rg.Chunks = append(rg.Chunks, ch)
 		}
